@@ -10,13 +10,25 @@ empty list - "Set to empty list to disable global components directories", Compo
 legacy STATICFILES_DIRS when non-empty, else BASE_DIR/components; <app>/<name> for every name of app_dirs
 (default "components"; none for the empty list).  Directories that exist but are not searched must contribute
 nothing (get_component_files) and must not be imported (autodiscover, start-up).
+HOW a directory is written means nothing (Autodiscover!Spells): an element of COMPONENTS.dirs / STATICFILES_DIRS
+with a trailing slash, "." or ".." segments (<BASE_DIR>/conf/../comps, <BASE_DIR>/comps/../comps), through a
+symbolic link lying in the project, or listed several times under different spellings is ONE component
+directory, its files returned once each under the dotted path from the project root; an app_dirs entry is a
+path relative to the app ("The paths must be relative to app", ComponentsSettings.app_dirs): "parts/inner",
+"components/", "./components" denote <app>/parts/inner, <app>/components and give one dotted-path part per
+segment; BASE_DIR spelled with ".." or through a symbolic link is still the project root.
 
 spec -> code: MC_C20 - TLC enumerates every tree of <= MaxEntries entries (11 directories x 21 file names,
               5 explicit directory names incl. a directory called "e.py") x 9 ways of configuring the root
               (COMPONENTS.dirs as str / Path / nested, STATICFILES_DIRS plain and tuple form, the default
               BASE_DIR/components, app_dirs of an app inside BASE_DIR, of a nested app with a custom app_dirs
               name, of an app outside BASE_DIR, a project path containing "[1]") x 4 suffixes (".py", None,
-              ".js", ".pyx"), checks the theorems and exports each state; the harness materialises it,
+              ".js", ".pyx"), plus 11 SPELLING variants over a lighter tree pool (public, "_" and "." entries,
+              packages): dirs with "..", STATICFILES_DIRS tuple with "x/../x", the same directory twice as
+              Path with "." and str with trailing slash, real path + symbolic link, link only, app_dirs
+              "parts/inner", "components/", "./parts/inner", the same app_dirs entry twice, BASE_DIR with ".."
+              and through a link; checks the theorems (among them: spelling never changes the expected
+              result) and exports each state; the harness materialises it,
               calls get_component_files, imports every file the specification calls Loadable and calls
               autodiscover() where the specification says it can be called.
               Second family ("cfg"): nine candidate directories (comps, outer/comps, assets, lib/more, the
@@ -24,7 +36,11 @@ spec -> code: MC_C20 - TLC enumerates every tree of <= MaxEntries entries (11 di
               combination of COMPONENTS.dirs (not given / [] / one / two incl. tuple form / a directory
               STATICFILES_DIRS lists too / the default directory) x STATICFILES_DIRS (empty / plain / tuple /
               two entries / the default directory) x app_dirs (not given / [] / one / two names) x COMPONENTS
-              written as dict / dict with None / ComponentsSettings is exported with the expected result.
+              written as dict / dict with None / ComponentsSettings is exported with the expected result;
+              3 more dirs lists, 2 more STATICFILES_DIRS lists (spelled with "..", "/", ".", through links,
+              the same directory up to twice) and 3 more app_dirs lists (multi-segment, trailing slash, "./",
+              repeated) crossed with every other choice, and BASE_DIR spelled with ".." / through a link
+              crossed with a selection.
               A sample of the exported cases is started for real (fresh interpreter, autodiscover=True):
               one per root variant and one per stratum dirs {not given, [], non-empty} x STATICFILES_DIRS
               {empty, non-empty}.
@@ -33,7 +49,9 @@ code -> spec: seeded random sessions with several candidate directories at once 
               nowhere) under a random configuration (dirs not given / [] / non-empty x STATICFILES_DIRS empty /
               non-empty x app_dirs not given / [] / names; str, Path, (prefix, path) forms), deeper trees,
               entries created and removed between scans, a directory listed twice, `load` and `autodiscover`
-              events; validated in one TLC batch by Trace_C20.
+              events; every listed path under a random spelling, symbolic links, repeated mentions, multi-
+              segment / decorated / repeated app_dirs entries, a spelled BASE_DIR; validated in one TLC batch
+              by Trace_C20.
 
 Everything runs in-process: get_component_files reads settings lazily, so BASE_DIR / COMPONENTS /
 STATICFILES_DIRS are re-pointed per case; the three generated apps are installed once with
@@ -44,7 +62,13 @@ Not determined by the property, therefore not demanded:
     only their selection is compared (Autodiscover!DotDetermined);
   * names with consecutive dots or a trailing dot ("a..b.py"; the code drops them on purpose), suffixes
     without a leading dot or with glob metacharacters, an empty prefix (component dir == BASE_DIR),
-    component dirs outside BASE_DIR, overlapping/nested component dirs, symlinks: never generated;
+    component dirs outside BASE_DIR, overlapping/nested component dirs (hence no app_dirs entry inside
+    another one), symbolic links INSIDE a component directory or outside the project, ".." in app_dirs
+    entries, app_dirs entries that are not str: never generated;
+  * the dotted path of a file whose directory the configuration names through a symbolic link: Python can
+    import it from the project root through the real location and through the link, the property does not say
+    which - both are admitted (Autodiscover!DotPaths), each file still exactly once, and autodiscover() is not
+    called in such a configuration;
   * importability is only demanded where Python's import system determines it (Loadable: no module file
     shadowing a package directory of the same name, ...);
   * entries of django_components' own `components` app directory are projected away;
@@ -52,7 +76,12 @@ Not determined by the property, therefore not demanded:
 
 Known deviations, classified by the specification (Autodiscover.tla, "named deviations"):
   directory-matches-suffix:returned-as-file   - directories are returned as entries;
-  root-path-has-glob-metachar:nothing-found   - the root path is pasted unescaped into the glob pattern.
+  root-path-has-glob-metachar:nothing-found   - the root path is pasted unescaped into the glob pattern;
+  app_dirs-entry-repeated:files-returned-once-per-entry - app directories are searched once per app_dirs entry;
+  base-dir-not-normalised:ValueError          - dotted paths are computed relative to str(BASE_DIR) as written
+                                                while the component directories are resolve()d.
+A failing observation is compared with the prediction of every non-empty set of triggered deviations
+(Autodiscover!DevAlternatives); autodiscover() is not demanded where a deviation is triggered.
 """
 from __future__ import annotations
 
@@ -820,9 +849,11 @@ def run(tier: str) -> int:
     finally:
         world.close()
     chk.cov["exhaustive"] = True
-    chk.cov["rule"] = ("every well-formed state of MC_C20 (tree x root variant x suffix; and the configuration family: 9 "
-                       "candidate directories x COMPONENTS.dirs not given / [] / 4 lists x STATICFILES_DIRS empty / 4 lists x "
-                       "app_dirs not given / [] / 3 lists x 3 ways of writing COMPONENTS x suffix) materialised and compared "
+    chk.cov["rule"] = ("every well-formed state of MC_C20 (tree x root variant incl. 11 spelling variants x suffix; and the "
+                       "configuration family: 11 candidate directories x COMPONENTS.dirs not given / [] / 4 lists x "
+                       "STATICFILES_DIRS empty / 4 lists x app_dirs not given / [] / 3 lists x 3 ways of writing COMPONENTS x "
+                       "suffix, plus 3 + 2 + 3 lists with spelled / linked / repeated paths and multi-segment / decorated / "
+                       "repeated app_dirs entries x everything else, plus BASE_DIR spelled 2 ways) materialised and compared "
                        "with get_component_files, imports and autodiscover(); sampled cases started in a fresh interpreter; "
                        "random multi-directory sessions under random configurations validated by "
                        "Trace_C20. Non-trivial = the tree has at least one entry; distinct by hash of the case")
@@ -830,9 +861,11 @@ def run(tier: str) -> int:
         "dotted paths are compared only where DotDetermined (no dot in a directory name or stem)",
         "importability is demanded only where Autodiscover!Loadable holds (Python's package/module precedence)",
         "names with '..' or a trailing dot, suffixes without leading dot, nested/overlapping roots, roots outside "
-        "BASE_DIR, symlinks are never generated",
+        "BASE_DIR, symlinks inside component directories are never generated",
+        "a directory named through a symbolic link: both dotted paths (real location, link) are admitted, each file once",
         "entries of django_components' own components/ app directory are projected away",
-        "STATICFILES_DIRS 'not set' is Django's default (the empty list); app_dirs names are single path components",
+        "STATICFILES_DIRS 'not set' is Django's default (the empty list); app_dirs entries are relative str paths "
+        "without '..', none inside another",
     ]
     return chk.finish()
 
